@@ -222,6 +222,37 @@ async fn run_history(cfg: &HistCfg) -> HistOut {
             }
         }
     }
+    // Large response (some histories): one waiting request is answered with a frame of more than 5 MiB whose
+    // blob payload consists of well-formed response frames addressed to the streams of other waiting requests.
+    // Whatever the reader does with a body of that size, nobody else may be handed any of it.
+    if cfg.seed % 8 == 5 && cfg.n1 <= 300 {
+        let c = cancelled.lock().unwrap().clone();
+        let live: Vec<usize> = (0..held.len()).filter(|i| !c.contains(&held[*i].0)).collect();
+        if live.len() >= 3 {
+            let xi = live[0];
+            let x_id = held[xi].0;
+            let comp = held[xi].1.conn.compression();
+            let mut payload = echo_payload(x_id);
+            let others: Vec<i16> = live.iter().skip(1).take(8).map(|i| held[*i].1.stream).collect();
+            let mut k = 0usize;
+            while payload.len() < (5 << 20) + 4096 {
+                let z = others[k % others.len()];
+                let bogus = 0xB16_0000_0000u64 | (k as u64 & 0xffff);
+                payload.extend_from_slice(&crate::wire::frame::response_frame(z, 0x08, &Default::default(), &echo_response(bogus).encode_body(), comp));
+                // vary the alignment of the embedded frames
+                payload.extend(std::iter::repeat(0u8).take(k % 9));
+                k += 1;
+            }
+            let resp = crate::wire::response::Response::Result(crate::wire::response::ResultBody::Rows {
+                metadata: crate::wire::response::ResultMetadata { columns: echo_cols(), paging_state: None, no_metadata: false, global_spec: true, new_metadata_id: None },
+                rows: vec![vec![Some((x_id as i64).to_be_bytes().to_vec()), Some(payload)]],
+            });
+            let (_, rq) = held.remove(xi);
+            rq.reply_env_tag(&Default::default(), &resp, Some(x_id));
+            log.push(crate::mock::log::Ev::Note("large-response-sent".into()));
+            tokio::time::sleep(Duration::from_millis(5)).await;
+        }
+    }
     // withhold: prefer requests whose caller is already gone
     let mut withheld = Vec::new();
     let mut now = Vec::new();
@@ -380,6 +411,9 @@ fn judge(o: &mut Outcome, cfg: &HistCfg, h: &HistOut) {
     if cfg.keepalive {
         o.class("keepalive-frames-interleaved");
     }
+    if evs.iter().any(|l| matches!(&l.ev, Ev::Note(n) if n == "large-response-sent")) {
+        o.class("large-response:over-5-MiB-full-of-frames-for-other-streams");
+    }
     if evs.iter().any(|l| matches!(&l.ev, Ev::Note(n) if n == "desync-probe-sent")) {
         o.class("desync-probe:embedded-frame-split-write-with-cancellations");
     }
@@ -525,6 +559,7 @@ pub fn run_b(ctx: &Ctx) -> Outcome {
         "order:Random",
         "exhaustion:more-requests-than-stream-ids",
         "desync-probe:embedded-frame-split-write-with-cancellations",
+        "large-response:over-5-MiB-full-of-frames-for-other-streams",
     ] {
         out.require_class(c);
     }
